@@ -59,7 +59,7 @@ func avoidFlushSpec(last stateEntry, buf []byte) bool {
 }
 
 //@ func (*encoderState).avoidFlush
-//@ property C07 C20
+//@ property C07 C02 C20
 //@ requires e != nil
 //@ ensures result == avoidFlushSpec(e.Tokens.Last, e.Buf)
 
@@ -703,3 +703,48 @@ func tokRawOK(prevStart, prevEnd, n int, baseOffset int64, num uint64) bool {
 //@ requires d != nil && scratch != nil
 //@ modifies everything
 //@ at call append#0 assert-before sorted-so-far: isSorted && len(*members) > 0 ==> jsonwire.Cmp16(prevMember.name, currMember.name) <= 0
+
+// ---------------------------------------------------------------- Token.Int / Token.Uint (C10)
+//
+// For a raw integer literal the accessor returns ParseUint's exact value (proved in
+// jsonwire) exactly when it lies in the range of the result type, and otherwise the
+// nearest bound together with an error; a typed unsigned/signed token converts the
+// same way. Thin contracts (t.String(), used for error texts, is havocked): what is
+// decided is, per return statement, the range condition under which it is taken and
+// the value it returns.
+
+//@ func (Token).Int
+//@ property C10
+//@ assertions-only error texts are built by uncontracted code: only range conditions and returned values are decided
+//@ requires t.raw != nil ==> tokRawOK(t.raw.prevStart, t.raw.prevEnd, len(t.raw.buf), t.raw.baseOffset, t.num)
+//@ modifies everything
+//@ at return#0 assert below-range: abs > 1<<63 && result0 == math.MinInt64 && result1 != nil
+//@ at return#1 assert negative-exact: ok && abs <= 1<<63 && result1 == nil && (abs < 1<<63 ==> result0 == -int64(abs)) && (abs == 1<<63 ==> result0 == math.MinInt64)
+//@ at return#2 assert above-range: abs > 1<<63-1 && result0 == math.MaxInt64 && result1 != nil
+//@ at return#3 assert positive-exact: ok && abs <= 1<<63-1 && result0 == int64(abs) && result1 == nil
+//@ at return#5 assert typed-int: result0 == int64(t.num) && result1 == nil
+//@ at return#6 assert typed-uint-above-range: t.num > 1<<63-1 && result0 == math.MaxInt64 && result1 != nil
+//@ at return#7 assert typed-uint-exact: t.num <= 1<<63-1 && result0 == int64(t.num) && result1 == nil
+
+//@ func (Token).Uint
+//@ property C10
+//@ assertions-only error texts are built by uncontracted code: only range conditions and returned values are decided
+//@ requires t.raw != nil ==> tokRawOK(t.raw.prevStart, t.raw.prevEnd, len(t.raw.buf), t.raw.baseOffset, t.num)
+//@ modifies everything
+//@ at return#0 assert exact: ok && result0 == abs && result1 == nil
+//@ at return#1 assert above-range: !ok && abs == math.MaxUint64 && result0 == math.MaxUint64 && result1 != nil
+//@ at return#3 assert typed-uint: result0 == t.num && result1 == nil
+//@ at return#4 assert typed-int-negative: int64(t.num) < 0 && result0 == 0 && result1 != nil
+//@ at return#5 assert typed-int-exact: int64(t.num) >= 0 && result0 == t.num && result1 == nil
+
+// Int/Uint constructors: a non-zero value becomes an exact-number token whose tag
+// letter names its signedness and whose payload is the value's 64 bits - so that
+// Token.Int/Token.Uint (above) hand back the value given to the constructor.
+//
+//@ func Int
+//@ property C10 C20
+//@ ensures exact: n != 0 ==> result.raw == nil && len(result.str) == 1 && result.str[0] == 'i' && result.num == uint64(n)
+
+//@ func Uint
+//@ property C10 C20
+//@ ensures exact: n != 0 ==> result.raw == nil && len(result.str) == 1 && result.str[0] == 'u' && result.num == n
